@@ -104,6 +104,10 @@ def strategy(tier):
         # the listener declares ALL names of the `declare` set (not only the one being resolved) at the first resolution of any
         # of them (kinds are then restricted to Int / Str / Any)
         "declare_all": st.booleans(),
+        # an ANCESTOR class is used (instance created, these names read) before its subclasses exist: what a class resolved
+        # through a wildcard / its default must not become a declaration for classes created later
+        "early_use": st.one_of(st.just([]), st.just([]), st.lists(st.sampled_from(NAMES), min_size=1, max_size=3)),
+        "early_at": st.integers(0, 1),
         "declare": st.one_of(st.just({}), st.just({}), st.dictionaries(st.sampled_from(NAMES), st.sampled_from(KINDS), min_size=1, max_size=6)),
     })
 
@@ -278,11 +282,37 @@ def run(case, ctx):
             declared_names.add(key)
     cls = BASES[base]
     built = []
+    early = []
+    leaky = set()
+    early_at = None
+    if case.get("early_use") and not mixin and len(levels) >= 2 and not late and not case.get("diamond") and base != "P":
+        early_at = case.get("early_at", 0) % (len(levels) - 1)
+        full, part = Resolver(base, levels, None), Resolver(base, levels[:early_at + 1], None)
+        for nm in dict.fromkeys(case["early_use"]):
+            if any(nm in ex2 for ex2, _ in levels):
+                continue                 # declared by name somewhere in the family: not resolved through a wildcard
+            if full.resolve({}, nm)[0] != part.resolve({}, nm)[0]:
+                # a class created AFTER the ancestor resolved the name declares a wildcard that should govern it: the
+                # ancestor's cached resolution is inherited like a declaration and wins (known finding F76)
+                if "policy/resolved-before-subclass-creation" in ctx.active_known:
+                    ctx.exclude("name resolved by an ancestor class before the subclass that re-governs it was created (F76)")
+                    continue
+                leaky.add(nm)
+            early.append(nm)
     for li, (ex, wc) in enumerate(levels[:-1] if mixin else levels):
         ns = {n: mk(k) for n, k in ex.items()}
         ns.update({p + "_": mk(k) for p, k in wc.items()})
         cls = type("G%d" % li, (cls,), ns)
         built.append(cls)
+        if early and li == early_at:
+            tmp_ = cls()
+            for nm in early:
+                try:
+                    getattr(tmp_, nm)
+                except Exception:
+                    pass
+            del tmp_
+            ctx.label("ancestor-used-before-its-subclasses-exist")
     if mixin:
         mns = {n: mk(k) for n, k in mixin[0].items()}
         mns.update({p + "_": mk(k) for p, k in mixin[1].items()})
@@ -333,7 +363,8 @@ def run(case, ctx):
     for ex, wc in levels + ([mixin] if mixin else []):
         explicit.update(ex)
     cloned = set()           # names for which the object got its own copy of the governing trait (a handler was registered)
-    cached = set()           # names the class has already resolved through a wildcard / its default (it caches the result)
+    cached = set(early)      # names the class has already resolved through a wildcard / its default (it caches the result;
+                             # a resolution cached by an ancestor before this class was created is inherited with it)
     o = cls()
     inst = {}
     m = Model()
@@ -443,6 +474,10 @@ def run(case, ctx):
             exp = m.delete(kind, name)
             got = outcome(lambda: delattr(o, name))
         if not (exp[0] == got[0] and (exp[0] != "ok" or exp[1] == got[1] or exp[1] is got[1])):
+            if name in leaky and name not in inst:
+                ctx.fail("policy/resolved-before-subclass-creation",
+                         "base=%s levels=%r: level %d was instantiated and read %r before its subclasses were created; on the leaf, %r "
+                         "on %r (governed by %s trait via %s): expected %r, got %r" % (base, levels, early_at, name, k, name, kind, src, exp, got))
             ctx.fail("policy/%s/%s" % (k if k != "sets" and k != "seti" else "set", kind),
                      "base=%s levels=%r mixin=%r: %r on %r (governed by %s trait via %s): expected %r, got %r; instance traits %r"
                      % (base, levels, mixin, k, name, kind, src, exp, got, inst))
